@@ -75,9 +75,18 @@ fn index_of(i: i64) -> u32 {
   }
 }
 
+/// the two DIDs an IOTA document moves between: the placeholder it is created under, and its DID once published
+fn iota_did(epoch: i64) -> IotaDID {
+  if epoch == 0 {
+    IotaDID::placeholder(&identity_iota_core::NetworkName::try_from("tst").unwrap())
+  } else {
+    IotaDID::parse("did:iota:tst:0x5555555555555555555555555555555555555555555555555555555555555555").unwrap()
+  }
+}
+
 fn new_issuer(iota: bool) -> Issuer {
   let mut doc = if iota {
-    let did = IotaDID::parse("did:iota:tst:0x5555555555555555555555555555555555555555555555555555555555555555").unwrap();
+    let did = iota_did(0);
     Doc::Iota(Box::new(IotaDocument::new_with_id(did)))
   } else {
     Doc::Core(CoreDocument::builder(Object::new()).id(CoreDID::parse("did:example:issuer-over-time").unwrap()).build().unwrap())
@@ -107,6 +116,7 @@ fn credential(issuer: &CoreDID, i: i64) -> Credential {
 fn err_kind(e: &JwtValidationError) -> String {
   match <&'static str>::from(e) {
     "MethodDataLookupError" => "method_lookup".into(),
+    "DocumentMismatch" => "document_mismatch".into(),
     "Signature" => "signature".into(),
     "Revoked" => "revoked".into(),
     other => other.to_string(),
@@ -180,6 +190,24 @@ impl Issuer {
           Err(e) => json!({"ok": false, "err": e}),
         }
       }
+      "rebase" => {
+        // pack into state metadata, unpack under the other DID: every self-reference moves, the stores are untouched
+        let Doc::Iota(d) = &self.doc else {
+          return json!({"ok": false, "err": "harness: rebase needs an IotaDocument"});
+        };
+        let r = (**d)
+          .clone()
+          .pack()
+          .and_then(|bytes| identity_iota_core::StateMetadataDocument::unpack(&bytes))
+          .and_then(|smd| smd.into_iota_document(&iota_did(i(&op["to"]))));
+        match r {
+          Ok(nd) => {
+            self.doc = Doc::Iota(Box::new(nd));
+            json!({"ok": true})
+          }
+          Err(e) => json!({"ok": false, "err": e.to_string()}),
+        }
+      }
       "validate" => {
         let k = i(&op["token"]) as usize;
         let Some(jwt) = self.tokens.get(k - 1) else {
@@ -248,7 +276,8 @@ fn replay_chunk(cases: &[Value], rep: &mut Report) {
   for (ci, case) in cases.iter().enumerate() {
     note_case(case);
     rep.eval();
-    let iota = ci % 2 == 1;
+    let has_rebase = arr(&case["ops"]).iter().any(|e| e["op"]["name"] == json!("rebase"));
+    let iota = has_rebase || ci % 2 == 1;
     match guarded(|| run_path(case, iota)) {
       Err(p) => rep.mismatch("lifecycle/panic", case, json!("no panic"), json!(p), "panic"),
       Ok(Some((k, at, exp, got))) => {
